@@ -210,6 +210,16 @@ def install():
                 ctx.live[id(w)] = sw
                 sws.append(sw)
             ctx.live_pools[pool.id] = sws
+        if ctx.world["meta"].get("preload"):
+            # The repository's own start-up phase (scheduler.start at SIMULATOR_START) is
+            # commented out; do what it would do: ask the policy for its initial LOAD
+            # placements and apply them to the live pools.
+            profiles = self._workload_loader.workload.work_profiles
+            pls = self._scheduler.start(self._simulator_time, profiles, self._worker_pools)
+            for p in pls:
+                self._worker_pools.get_worker_pool(p.worker_pool_id).load_profile(
+                    p.work_profile, p.loading_strategy, p.worker_id)
+            ctx.count("preloaded_profiles", len(list(pls)))
     wrap(Sim, "__init__", after=sim_init_after)
 
     # ---- clock -------------------------------------------------------------
@@ -498,7 +508,14 @@ def install():
                 for tid in e["members"]:
                     t = ctx.task_objs.get(tid)
                     if t is not None and t._remaining_time is not None:
-                        ends.append(sim_time.time + t._remaining_time.time)
+                        # expected end, weakest reading: the earlier of (now + remaining time) and
+                        # (start + nominal runtime of the applied strategy).  With runtime variance
+                        # the planners only know the nominal runtime.
+                        end = sim_time.time + t._remaining_time.time
+                        rr = ctx.tasks[tid]
+                        if rr["starts"] and rr.get("expect_runtime") is not None:
+                            end = min(end, max(sim_time.time, rr["starts"][-1] + rr["expect_runtime"]))
+                        ends.append(end)
                 call["running"].append({"task": str(key[0]) + ":" + ",".join(ctx.tasks[tid]["uname"] for tid in e["members"]),
                                         "worker": sw["wid"], "pool": sw["pool"],
                                         "end": max(ends) if ends else sim_time.time, "demand": e["demand"]})
@@ -948,6 +965,10 @@ def run_world(world, workdir, opts=None, extra_install=None, wall_s=60):
         where = f"{os.path.relpath(frames[-1].filename, common.REPO)}:{frames[-1].name}" if frames else "?"
         ctx.exception = f"{type(e).__name__} at {where}: {str(e)[:300]}"
         ctx.exc_type, ctx.exc_where = type(e).__name__, where
+        if (type(e).__name__ == "GurobiError" and "size-limited" in str(e)) or \
+                type(e).__name__ == "DOcplexLimitsExceeded":
+            # the solver licence on this machine, not the repository: tooling-inconclusive
+            ctx.status = "tooling_limit"
     finally:
         signal.alarm(0)
         signal.signal(signal.SIGALRM, old)
